@@ -214,7 +214,7 @@ class Gen:
         if cache is not None:
             spec['cache'] = cache
         if sw['context'] and maybe(rng, 0.6):
-            spec['context'] = {'name': pick(rng, ['@@section', '@@property', '@@value', 'margin', 'display', 'zoom', 'line-height', 'transform'])}
+            spec['context'] = {'name': pick(rng, ['@@section', '@@property', '@@value', 'line-height'] + sorted(ga.VALUE_CONTEXTS))}
         if sw['peer'] and maybe(rng, 0.5):
             spec['peer'] = {'seed': rng.randrange(1 << 16), 'style': pick(rng, PEER_STYLES)}
         if maybe(rng, 0.1):
@@ -244,6 +244,13 @@ class Gen:
         tags = []
         nat = None
         user = sorted(spec.get('snippets') or {})
+        ctx_name = (spec.get('context') or {}).get('name')
+        if spec.get('type') == 'stylesheet' and ctx_name in ga.VALUE_CONTEXTS and maybe(rng, 0.7):
+            # the caret is inside the value of property `ctx_name`
+            return pick(rng, ga.VALUE_CONTEXTS[ctx_name][0]), tags, nat
+        if spec.get('type') == 'stylesheet' and not ctx_name and sw['context'] and maybe(rng, 0.3):
+            # property-level look at a property that some config completes values of
+            return pick(rng, ga.VALUE_CONTEXTS[pick(rng, sorted(ga.VALUE_CONTEXTS))][1]), tags, nat
         if spec.get('type') == 'stylesheet':
             numdef = [a for a in ga.NUMDEF_STYLESHEET
                       if all((p in (spec.get('snippets') or {}) or p == 'zom') for p in a.split('+'))]
@@ -524,7 +531,7 @@ class Gen:
         if r < 0.72 and spec.get('context'):
             # the editor moved the caret: the context changes, in place or by a new dict
             if stype == 'stylesheet':
-                name = pick(rng, ['@@section', '@@property', '@@value', 'margin', 'display', 'zoom', 'line-height'])
+                name = pick(rng, ['@@section', '@@property', '@@value', 'line-height'] + sorted(ga.VALUE_CONTEXTS))
                 if maybe(rng, 0.5):
                     return {'op': 'edit_cfg', 'cfg': cid, 'path': ['context', 'name'], 'value': name, 'inplace': True}
                 return {'op': 'edit_cfg', 'cfg': cid, 'path': ['context'], 'value': {'name': name}}
